@@ -110,3 +110,16 @@ Print Assumptions C12_coherent_refuted_without_normalisation.
 Print Assumptions C12_coherent_except_neg_zero.
 Print Assumptions C12_range_identity_within.
 Print Assumptions C12_range_identity_beyond.
+
+(* ======================================================================================================== *)
+(* R2G block (added; see notes/R2G.md): utils::hash_number, TRANSLATED from the current utils.rs into
+   gen/PureNum.v by translator/rust2gallina.py on every run, equals the model used above (hash_number' with the
+   -0 normalisation), for every valid double.  A change of the Rust function changes the generated text and breaks
+   THIS named statement. *)
+From YVGen Require PureNum.
+From YV Require PureEquivNum.
+Theorem C12_gen_hash_number_eq_model : forall x, f64_valid x = true ->
+  PureNum.hash_number x = hash_number' true x.
+Proof. exact PureEquivNum.gen_hash_number_eq_model. Qed.
+Print Assumptions C12_gen_hash_number_eq_model.
+(* ================================================ end of the R2G block ================================= *)
